@@ -124,6 +124,18 @@ func unmarshalShared(sess *builder.Session, cfg *configuration.Configuration, f 
 	return b.GetBuiltObject(), err
 }
 
+// coldDocs: literal documents for decode operations in runs with cold
+// package-level state (time zones by name, every number form, escapes, typed
+// arrays, UIDs, markers and references, comments).
+var coldDocs = []string{
+	"c0\n[2000-01-01/09:31:44.901554212/Europe/Prague 04:00:00/Asia/Tokyo 1985-10-26/01:20:01.105/America/Los_Angeles 09:00:00/Local 2000-10-10/14:50:01.222/Europe/Milan]",
+	"c0\n{\"a\" = 1 \"b\" = -0x1f \"c\" = 1.5e10 \"d\" = 0x1.8p4 \"e\" = 123456789012345678901234567890 \"f\" = null \"g\" = true}",
+	"c0\n[\"line\\nbreak \\[1f600] tab\\t\" @u8x[01 02 ff] @i16[-1 2 300] @f32[1.5 -2.25] f1e2d3c4-b5a6-4789-8abc-def012345678]",
+	"c0\n[&a:[1 2 3] $a &b:\"text\" $b /* comment */ // line\n 10:00:01.93/America/Los_Angeles]",
+	"c0\n(\"root\" (\"child\" 1 2) 3)",
+	"\x81\x00\x9a\x01\x83abc\x7c\x00\x00\x00\x00\x00\x00\x00\x9b",
+}
+
 var biasNames = []string{"uniform", "sticky", "switch-at-cache-miss", "round-robin", "starve-thread-0"}
 
 func runC17(e *Env) Outcome {
@@ -224,6 +236,11 @@ func runC17(e *Env) Outcome {
 		for j := 0; j < nops; j++ {
 			op := c17Op{Format: gen.Format(t.Intn("op-format", 2)), Spec: t.Intn("op-spec", nspecs)}
 			switch k := t.Intn("op-kind", 8); {
+			case cold && k >= 4:
+				// cold runs decode as well - documents from a pool of literals,
+				// so that nothing of the library has run before the threads start
+				op.Kind = "decode-literal"
+				op.Spec = t.Intn("cold-doc", len(coldDocs))
 			case k <= 3 || cold:
 				op.Kind = "marshal"
 				op.Shared = share == 1 || share == 3
@@ -286,6 +303,18 @@ func runC17(e *Env) Outcome {
 				res.val, err = ce.UnmarshalCTE(r, tmpl, cfg)
 			}
 			res.ok = err == nil
+		case "decode-literal":
+			rc := &rec.Recorder{}
+			rp.Cut = -1
+			doc := coldDocs[op.Spec]
+			r := simio.NewReader([]byte(doc), rp)
+			var err error
+			if doc[0] == 'c' {
+				err = ce.NewCTEDecoder(cfg).Decode(r, ce.NewRules(rc, cfg))
+			} else {
+				err = ce.NewCBEDecoder(cfg).Decode(r, ce.NewRules(rc, cfg))
+			}
+			res.ok, res.evs = err == nil, rc.Evs
 		case "decode":
 			rc := &rec.Recorder{}
 			rp.Cut = -1
